@@ -69,7 +69,7 @@ HIST_PROPS = {
             "round trips with keys outside the plain classes are first tried in a forked child (an EXTNAME card in the primary header can send the reader into undefined behaviour)",
         ],
         "expected_probes": ["roundtrip_with_keys", "roundtrip_all_entries_intact", "rejected_op_left_unchanged", "failed_op_left_unchanged", "overwrite_accepted", "insert_accepted",
-                            "key_removed", "integer_recovered_exactly", "double_read_back", "typed_read_refused_non_number", "roundtrip_tried_in_child"],
+                            "key_removed", "integer_recovered_exactly", "double_read_back", "typed_read_refused_non_number"],
     },
     "C19": {
         "targets": ["hist"],
